@@ -212,6 +212,7 @@ static enum DeviceStatusCode
 c_set(struct Camera* c, struct CameraProperties* p)
 {
     struct MCam* m = containerof(c, struct MCam, cam);
+    ev("{\"e\":\"DevUse\",\"kind\":\"cam\",\"hd\":%d,\"call\":\"set\"}", m->h);
     m->props = *p;
     uint32_t w = SC[m->s].w, h = SC[m->s].h;
     m->props.shape.x = w;
@@ -223,13 +224,14 @@ c_set(struct Camera* c, struct CameraProperties* p)
 static enum DeviceStatusCode
 c_get(const struct Camera* c, struct CameraProperties* p)
 {
+    ev("{\"e\":\"DevUse\",\"kind\":\"cam\",\"hd\":%d,\"call\":\"get\"}", containerof(c, struct MCam, cam)->h);
     *p = containerof(c, struct MCam, cam)->props;
     return Device_Ok;
 }
 static enum DeviceStatusCode
 c_meta(const struct Camera* c, struct CameraPropertyMetadata* m)
 {
-    (void)c;
+    ev("{\"e\":\"DevUse\",\"kind\":\"cam\",\"hd\":%d,\"call\":\"get_meta\"}", containerof(c, struct MCam, cam)->h);
     memset(m, 0, sizeof *m);
     return Device_Ok;
 }
@@ -237,6 +239,8 @@ static enum DeviceStatusCode
 c_shape(const struct Camera* c, struct ImageShape* s)
 {
     struct MCam* m = containerof(c, struct MCam, cam);
+    if (!m->running) // (while running the source asks before every frame: CamFrame events already show the device in use)
+        ev("{\"e\":\"DevUse\",\"kind\":\"cam\",\"hd\":%d,\"call\":\"get_shape\"}", m->h);
     *s = m->shape;
     if (m->running && epoch == 1 && SC[m->s].shapefail >= 0 && (long)m->next_hw == SC[m->s].shapefail) {
         ev("{\"e\":\"CamFail\",\"s\":%d,\"hw\":%ld,\"call\":\"get_shape\"}", m->s, (long)m->next_hw);
@@ -383,12 +387,22 @@ describe_packet(char* dst, size_t cap, const uint8_t* p, const uint8_t* e, int s
 static enum DeviceState
 s_set(struct Storage* s, const struct StorageProperties* p)
 {
-    (void)s;
     (void)p;
+    ev("{\"e\":\"DevUse\",\"kind\":\"sto\",\"hd\":%d,\"call\":\"set\"}", containerof(s, struct MSto, sto)->h);
     return DeviceState_Armed;
 }
-static void s_get(const struct Storage* s, struct StorageProperties* p) { (void)s; (void)p; }
-static void s_meta(const struct Storage* s, struct StoragePropertyMetadata* m) { (void)s; memset(m, 0, sizeof *m); }
+static void
+s_get(const struct Storage* s, struct StorageProperties* p)
+{
+    (void)p;
+    ev("{\"e\":\"DevUse\",\"kind\":\"sto\",\"hd\":%d,\"call\":\"get\"}", containerof(s, struct MSto, sto)->h);
+}
+static void
+s_meta(const struct Storage* s, struct StoragePropertyMetadata* m)
+{
+    ev("{\"e\":\"DevUse\",\"kind\":\"sto\",\"hd\":%d,\"call\":\"get_meta\"}", containerof(s, struct MSto, sto)->h);
+    memset(m, 0, sizeof *m);
+}
 static enum DeviceState
 s_start(struct Storage* st)
 {
@@ -443,7 +457,12 @@ s_append(struct Storage* st, const struct VideoFrame* f, size_t* nbytes)
     return DeviceState_Running;
 }
 static void s_destroy(struct Storage* s) { free(containerof(s, struct MSto, sto)); }
-static void s_reserve(struct Storage* s, const struct ImageShape* sh) { (void)s; (void)sh; }
+static void
+s_reserve(struct Storage* s, const struct ImageShape* sh)
+{
+    (void)sh;
+    ev("{\"e\":\"DevUse\",\"kind\":\"sto\",\"hd\":%d,\"call\":\"reserve\"}", containerof(s, struct MSto, sto)->h);
+}
 
 // devices 0,1: cameras vcam0/1; 2,3: storages vstore0/1; 4: camera "vcam2" and 5: storage "vstore2" are enumerated but cannot
 // be opened (an unplugged / busy device)
@@ -690,6 +709,20 @@ run_prog(void)
         } else if (!strcmp(op, "state")) {
             int st = (int)acquire_get_state(rt);
             ev("{\"e\":\"Api\",\"op\":\"state\",\"ph\":\"ret\",\"rc\":0,\"st\":%d}", st);
+        } else if (!strcmp(op, "query")) {
+            // query S: the read-only part of the API (shape of stream S, configuration read-back, property metadata, backlog)
+            int s = atoi(prog[++i]);
+            struct ImageShape shp;
+            static struct AcquireProperties rb;
+            static struct AcquirePropertyMetadata md;
+            pending_api = "query";
+            ev("{\"e\":\"Api\",\"op\":\"query\",\"ph\":\"call\"}");
+            int rc = (int)acquire_get_shape(rt, (uint32_t)s, &shp);
+            rc |= (int)acquire_get_configuration(rt, &rb) << 1;
+            rc |= (int)acquire_get_configuration_metadata(rt, &md) << 2;
+            (void)acquire_bytes_waiting_to_be_written_to_disk(rt, (uint32_t)s);
+            ev("{\"e\":\"Api\",\"op\":\"query\",\"ph\":\"ret\",\"rc\":%d,\"st\":%d}", rc, (int)acquire_get_state(rt));
+            pending_api = "";
         } else if (!strcmp(op, "mark")) {
             vs_yield("client_mark"); // a scheduling point a `window` line can refer to
         } else if (!strcmp(op, "yield")) {
